@@ -19,6 +19,7 @@ HD == INSTANCE H_DocBoundaries
 R == INSTANCE EmitRead
 
 CONSTANTS Mode, MaxEvents, MaxDocs, EmptyColls,   \* EmptyColls: collections stay empty (document-level configurations)
+          CollsAt,               \* "any" | "key": collections only as the document root or as mapping keys (complex-key configurations)
           MaxNest,     \* MaxNest: collections nested at most this deep (grammar mode)
           Canons, Bests, Widths, Unis, LBs,   \* option product: canonical, indent, width, allow_unicode, line_break ("n","r","rn")
           Vs, Ss, SAs, STs, SIs,        \* scalar events: value classes, style requests, anchors, tags, implicit pairs
@@ -57,6 +58,7 @@ Feed == /\ Running(m) /\ NeedMoreEvents(m.events) /\ Len(hist) < MaxEvents
              /\ Mode = "grammar" => (G!MonStep(g, e.k) # G!Reject /\ Len(hist) + 1 + MinRemaining(G!MonStep(g, e.k)) <= MaxEvents)
              /\ e.k = "DocumentStart" => NDocs(hist) < MaxDocs
              /\ (Mode = "grammar" /\ e.k \in {"SequenceStart", "MappingStart"}) => Len(g) - 2 < MaxNest
+             /\ (CollsAt = "key" /\ e.k \in {"SequenceStart", "MappingStart"}) => (g # <<>> /\ g[Len(g)] \in {"D0", "M0"})
              /\ (EmptyColls /\ g # <<>> /\ g[Len(g)] \in {"Q", "M0"}) => e.k \in {"SequenceEnd", "MappingEnd"}
              /\ m' = [m EXCEPT !.events = Append(@, e), !.trail = {}]
              /\ hist' = Append(hist, e)
